@@ -47,5 +47,68 @@ mod __verif_c42 {
         assert!(workers_for(work2, pool) >= r, "C42.monotone_in_work");
     }
 
+    fn member(v: &Vec<usize>, c: usize) -> bool {
+        let mut have = false;
+        let mut m = 0;
+        while m < v.len() {
+            have |= v[m] == c;
+            m += 1;
+        }
+        have
+    }
+
+    fn increasing(v: &Vec<usize>) -> bool {
+        let mut ok = true;
+        let mut j = 1;
+        while j < v.len() {
+            ok &= v[j - 1] < v[j];
+            j += 1;
+        }
+        ok
+    }
+
+    // @harness tiers=experimental timeout=2400
+    // @encodes execution::topology::parse_cpulist
+    // @bounds the cpulist "a-b" with symbolic single digits a, b in 0..=3
+    // @oracle c in result <=> a <= c <= b (a > b denotes nothing); result strictly increasing
+    #[kani::proof]
+    #[kani::unwind(2)]
+    fn cpulist_one_range() {
+        let a: u8 = kani::any();
+        let b: u8 = kani::any();
+        kani::assume(a <= 3 && b <= 3);
+        let buf = [b'0' + a, b'-', b'0' + b];
+        let s = unsafe { std::str::from_utf8_unchecked(&buf[..]) };
+        let got = parse_cpulist(s);
+        kani::cover!(got.len() == 3);
+        let c: usize = kani::any();
+        kani::assume(c <= 9);
+        assert!(member(&got, c) == ((a as usize) <= c && c <= (b as usize)), "C42.cpulist_range_denotes_its_set");
+        assert!(increasing(&got), "C42.cpulist_strictly_increasing");
+        std::mem::forget(got);
+    }
+
+    // @harness tiers=experimental timeout=2400
+    // @encodes execution::topology::parse_cpulist
+    // @bounds the cpulist "a,b" and " a , x" (junk second part) with symbolic single digits
+    // @oracle singletons denote themselves, junk is ignored, duplicates collapse, output sorted
+    #[kani::proof]
+    #[kani::unwind(2)]
+    fn cpulist_two_singletons() {
+        let a: u8 = kani::any();
+        let b: u8 = kani::any();
+        kani::assume(a <= 9 && b <= 9);
+        let buf = [b'0' + a, b',', b'0' + b];
+        let s = unsafe { std::str::from_utf8_unchecked(&buf[..]) };
+        let got = parse_cpulist(s);
+        kani::cover!(got.len() == 2);
+        kani::cover!(got.len() == 1);
+        let c: usize = kani::any();
+        kani::assume(c <= 9);
+        assert!(member(&got, c) == (c == a as usize || c == b as usize), "C42.cpulist_singletons_denote_themselves");
+        assert!(increasing(&got), "C42.cpulist_strictly_increasing");
+        std::mem::forget(got);
+    }
+
     // @playback
 }
